@@ -727,7 +727,7 @@ Proof. induction l as [|x l IH]; intros l' st; [reflexivity|]. cbn. rewrite IH. 
 Lemma hosts_seg : forall seg st, ~ In ECommit seg -> r_hosts (rrun st seg) = r_hosts st.
 Proof.
   induction seg as [|ev seg IH]; intros st N; [reflexivity|]. cbn. rewrite IH by (intro X; apply N; right; exact X).
-  destruct (list_eq_dec N.eq_dec (r_hosts (rstep st ev)) (r_hosts st)) as [E|NE]; [exact E|]. exfalso. apply N. left. symmetry. exact (hosts_step st ev NE).
+  destruct (list_eq_dec N.eq_dec (r_hosts (rstep st ev)) (r_hosts st)) as [E|NE]; [exact E|]. exfalso. apply N. left. rewrite (hosts_step st ev NE). reflexivity.
 Qed.
 
 (* a step of the harness = a segment of accepted model events (a reconstruction step is detect .. commit); kind 5 is the
